@@ -76,12 +76,15 @@ def listMax : List Int → Option Int
     | none => some x
     | some m => some (if x < m then m else x)
 
-/-- `while next < now: next += delta` (the constructor guarantees `0 < delta`; for other values the model
-    returns `next` unchanged — unreachable, and no theorem relies on it) -/
-def advance (δ next now : Int) : Int :=
-  if next < now ∧ 0 < δ then advance δ (next + δ) now else next
-termination_by (now - next).toNat
-decreasing_by omega
+/-- `while next < now: next += delta`, with a fuel argument (structural recursion) -/
+def advanceFuel : Nat → Int → Int → Int → Int
+  | 0, _, next, _ => next
+  | f + 1, δ, next, now => if next < now then advanceFuel f δ (next + δ) now else next
+
+/-- the loop with enough fuel: every iteration adds `delta ≥ 1` (the constructor guarantees `0 < delta`), so
+    `now - next` iterations suffice (`advance_spec` in Proofs/Lemmas/CoreTrigger.lean).  For `delta ≤ 0` the Python loop
+    would not terminate; the constructor makes that unreachable and no theorem relies on the value returned here. -/
+def advance (δ next now : Int) : Int := advanceFuel (now - next).toNat δ next now
 
 /-- one period of a Period(s)Trigger on one bar: skip what fell between bars, fire if due now -/
 def stepOne (now δ next : Int) : Bool × Int :=
